@@ -50,6 +50,9 @@ type UpdateSpec struct {
 	Ident string   `json:"ident,omitempty"`
 	VerOk bool     `json:"verok,omitempty"`
 	Txs   []TxSpec `json:"txs,omitempty"`
+	// Malform makes the wire update ill-formed in a way starknet.PreConfirmedUpdateEnvelope.Validate
+	// (called by the feeder client only) would reject: short-receipts | short-diffs | nil-receipt | nil-diff
+	Malform string `json:"malform,omitempty"`
 }
 
 type OpSpec struct {
@@ -77,6 +80,9 @@ type Scenario struct {
 	Base     []BaseBlock `json:"base"` // blocks 0..len-1
 	Head     uint64      `json:"head"` // initial canonical head number
 	Ops      []OpSpec    `json:"ops"`
+	LiveSeed uint64      `json:"live_seed,omitempty"` // kind "live": the case is regenerated from (seed, index): its head moves on a real node
+	LiveIdx  int         `json:"live_idx,omitempty"`
+	ProbeLo  uint64      `json:"probe_lo,omitempty"` // boundary scenarios: probe [ProbeLo, ProbeLo+15] and 0 instead of [0,14]
 }
 
 // ---- universe ---------------------------------------------------------------------------------
@@ -290,10 +296,28 @@ func wireTxs(txs []TxSpec) ([]starknet.Transaction, []*starknet.TransactionRecei
 	return ts, rs, ds
 }
 
+func malform(how string, rs []*starknet.TransactionReceipt, ds []*starknet.StateDiff) ([]*starknet.TransactionReceipt, []*starknet.StateDiff) {
+	if len(rs) == 0 {
+		return rs, ds
+	}
+	switch how {
+	case "short-receipts":
+		return rs[:len(rs)-1], ds
+	case "short-diffs":
+		return rs, ds[:len(ds)-1]
+	case "nil-receipt":
+		rs[len(rs)-1] = nil
+	case "nil-diff":
+		ds[len(ds)-1] = nil
+	}
+	return rs, ds
+}
+
 func (u *UpdateSpec) wire(num uint64) starknet.PreConfirmedUpdate {
 	switch u.Kind {
 	case "B":
 		ts, rs, ds := wireTxs(u.Txs)
+		rs, ds = malform(u.Malform, rs, ds)
 		ver := verGood
 		if !u.VerOk {
 			ver = verBad
@@ -304,6 +328,7 @@ func (u *UpdateSpec) wire(num uint64) starknet.PreConfirmedUpdate {
 			SequencerAddress: fe(1), L1GasPrice: gp(), L2GasPrice: gp(), L1DataGasPrice: gp(), L1DAMode: starknet.Blob}
 	case "D":
 		ts, rs, ds := wireTxs(u.Txs)
+		rs, ds = malform(u.Malform, rs, ds)
 		return starknet.PreConfirmedDeltaUpdate{BlockIdentifier: u.Ident, Transactions: ts, Receipts: rs,
 			TransactionStateDiffs: ds}
 	default:
@@ -501,13 +526,25 @@ func canonView(v *preconfirmed.ChainReader) string {
 	return fmt.Sprintf("%d %s # %s", v.Length(), strings.Join(nf, "|"), strings.Join(of, ","))
 }
 
-// deepHash is the immutability fingerprint of a held view.
-func deepHash(v *preconfirmed.ChainReader) string {
+// deepHash is the immutability fingerprint of a held view: the canonical text of the view (what
+// the model also carries) plus, per entry, a hash over everything reachable from it.
+func deepHash(v *preconfirmed.ChainReader) string { return deepHashMemo(v, nil) }
+
+// deepHashMemo: memo (may be nil) caches the per-entry fingerprint within ONE verification pass
+// (views share most of their entries); it must not outlive the pass.
+func deepHashMemo(v *preconfirmed.ChainReader, memo map[*pending.PreConfirmed]string) string {
 	var b strings.Builder
-	b.WriteString(canonView(v))
+	fmt.Fprintf(&b, "%d", v.Length())
 	for e := range v.NewestFirst() {
-		b.WriteString(" ; ")
-		b.WriteString(extraEntry(e))
+		if s, ok := memo[e]; ok {
+			b.WriteString(s)
+			continue
+		}
+		s := fmt.Sprintf(" | %s ; %s #%x", canonEntry(e), extraEntry(e), entryFingerprint(e))
+		if memo != nil {
+			memo[e] = s
+		}
+		b.WriteString(s)
 	}
 	return b.String()
 }
